@@ -14,6 +14,10 @@ import S4V.Drv.Journal
 import S4V.Drv.Tmp
 import S4V.Drv.Walk
 import S4V.Drv.Print
+import S4V.Drv.Cli
+import S4V.Drv.Boxptrs
+import S4V.Drv.Stream
+import S4V.Drv.Time
 
 open S4V.Model S4V.Model.Wire
 
@@ -204,6 +208,10 @@ def step (line : String) : String :=
   | "tmp" :: rest => S4V.Drv.stepTmp rest
   | "walk" :: rest => S4V.Drv.Walk.stepWalk rest
   | "prt" :: rest => S4V.Drv.Print.stepPrint rest
+  | "cli" :: rest => stepCli rest
+  | "boxp" :: rest => S4V.Drv.stepBoxp rest
+  | "asm" :: rest => S4V.Drv.Stream.stepAsm rest
+  | "time" :: rest => S4V.Drv.Time.stepTime rest
   | _ => "bad-op"
 
 partial def loop (h : IO.FS.Stream) (out : IO.FS.Stream) : IO Unit := do
